@@ -233,8 +233,9 @@ Qed.
 
 Lemma analyze_fn_deps_no_panic tg s o : no_panic (analyze_fn_deps tg s o).
 Proof.
-  unfold analyze_fn_deps. destruct (no_deps_value o); [exact I|].
-  destruct (p_items (s_inputs s)) as [|[x r m c|x p ty] rest]; try exact I. apply extract_no_panic.
+  unfold analyze_fn_deps. destruct (no_deps_value o).
+  - destruct (p_items (s_inputs s)) as [|[x r m c|x p ty] rest]; exact I.
+  - destruct (p_items (s_inputs s)) as [|[x r m c|x p ty] rest]; try exact I. apply extract_no_panic.
 Qed.
 
 Lemma generate_params_ok k o tg s deps tg' :
@@ -441,9 +442,9 @@ Proof.
     cbn [expand_items]. fold (merged_sig h s).
     destruct (parse_fn_attr attr) as [a|[msg|]|site|w] eqn:Ea; try discriminate.
     + cbn [rbind]. unfold entrait_for_single_fn, analyze, analyze_fn_deps. cbn [fa_opts with_fn_opts].
-      destruct (no_deps_value (apply_variant v (fa_opts a))); [discriminate|].
       change (p_items (s_inputs (merged_sig h s))) with (p_items (s_inputs s)).
-      destruct (p_items (s_inputs s)) as [|[x r mm c|x p ty] rest]; try discriminate; intros H; injection H as <-; reflexivity.
+      destruct (no_deps_value (apply_variant v (fa_opts a)));
+        destruct (p_items (s_inputs s)) as [|[x r mm c|x p ty] rest]; try discriminate; intros H; injection H as <-; reflexivity.
     + intros H. injection H as <-. reflexivity.
   - (* trait *)
     cbn [expand_items]. destruct (parse_trait_attr attr) as [a|[msg|]|site|w] eqn:Ea; try discriminate.
